@@ -96,6 +96,7 @@ type traceRule struct {
 	// constant propagation through one atomic status field: Load returns the
 	// tracked value, Store/CompareAndSwap update it (state key "T")
 	trackField string
+	args       []Value // abstract values bound to the root function's parameters
 }
 
 type traceDom struct {
@@ -182,7 +183,7 @@ func (d *traceDom) Inline(ip *Interp, fr *Frame, st *State, call *ast.CallExpr, 
 		return nil
 	}
 	if c.Iface {
-		out = ip.P.implementations(c)
+		out = ip.P.implementationsIn(fr.Fn, c)
 	} else if f := ip.P.byObj[c.Key]; f != nil && f.Lib {
 		out = []*Func{f}
 	}
@@ -280,7 +281,7 @@ func (tr *traceRule) run(root *Func, init kv) *Interp {
 	if tr.maxDepth > 0 {
 		ip.MaxDepth = tr.maxDepth
 	}
-	ip.Run(root, &State{Dom: init})
+	ip.RunWithArgs(root, &State{Dom: init}, tr.args)
 	tr.c.Rep.interpDone(ip, tr.rule, root)
 	return ip
 }
